@@ -28,6 +28,13 @@ const (
 // CheckLin checks a history against a sequential model whose state is a comparable value
 // (a canonical string). step returns whether out is a legal result of in at state, and the next state.
 func CheckLin(hist []HistOp, init string, step func(state string, in any, out string) (bool, string), timeout time.Duration) LinResult {
+	return CheckLinEq(hist, init, step, func(a, b string) bool { return a == b }, timeout)
+}
+
+// CheckLinEq is CheckLin with a custom state equivalence.
+func CheckLinEq(hist []HistOp, init string, step func(state string, in any, out string) (bool, string),
+	eq func(a, b string) bool, timeout time.Duration,
+) LinResult {
 	m := porcupine.Model{
 		Init: func() interface{} { return init },
 		Step: func(st, in, out interface{}) (bool, interface{}) {
@@ -35,7 +42,7 @@ func CheckLin(hist []HistOp, init string, step func(state string, in any, out st
 
 			return ok, ns
 		},
-		Equal: func(a, b interface{}) bool { return a.(string) == b.(string) },
+		Equal: func(a, b interface{}) bool { return eq(a.(string), b.(string)) },
 	}
 
 	ops := make([]porcupine.Operation, len(hist))
